@@ -762,7 +762,7 @@ fn main() {
     }
 
     let threads = a.pick(4, 14) as u64;
-    let per_thread = a.pick(1_000u64, 40_000);
+    let per_thread = a.pick(15_000u64, 400_000);
     std::thread::scope(|s| {
         for t in 0..threads {
             let rep = &rep;
